@@ -138,7 +138,7 @@ var dealKinds = []string{"honest", "share-off-poly", "commitments-altered", "ind
 var badDeal = map[string]bool{"share-off-poly": true, "commitments-altered": true, "index-other": true, "index-out-of-range": true,
 	"t-out-of-range": true, "forged-dh-signature": true, "garbage-plaintext": true, "corrupted-in-flight": true}
 
-var justKinds = []string{"correct", "wrong-share", "other-index-deal", "substituted-commitments", "none", "twice", "wrong-t"}
+var justKinds = []string{"correct", "wrong-share", "other-index-deal", "substituted-commitments", "none", "twice", "wrong-t", "bad-then-good"}
 
 func (Engine) RunOne(t *core.Tape, prop, tier string, info *core.RunInfo) *core.Violation {
 	g := kit.Ed()
@@ -373,6 +373,9 @@ func (Engine) RunOne(t *core.Tape, prop, tier string, info *core.RunInfo) *core.
 				net.After(int64(2+t.Intn("sched.timeout", 12))*1_000_000, id, "timeout", nil)
 			}
 		}
+	}
+	if !honestClass && t.Bool("sched.justabsent", 200) {
+		net.After(int64(6+t.Intn("sched.justabsent", 14))*1_000_000, dealerID, "justify-absent", t.Intn("sched.justabsent", n))
 	}
 	// Byzantine verifier scripts
 	for b := range nodes {
@@ -700,6 +703,18 @@ func (Engine) RunOne(t *core.Tape, prop, tier string, info *core.RunInfo) *core.
 					case "wrong-t":
 						j.Deal.T = uint32(2 + (int(j.Deal.T)-2+1)%(n-1))
 					}
+					if jk == "bad-then-good" {
+						// an invalid justification first, the valid one afterwards: the dealer must stay bad for good
+						bad := cloneAny(j).(*Just)
+						bad.kind = "wrong-share"
+						bad.Deal.SecV = sb(kit.ScalarFromTape(g, t, "byz.val"))
+						if err := va.SignJust(bad, dPriv); err == nil {
+							info.ByzFired("just:" + jk)
+							bcastJust(bad)
+						}
+						j.kind = "correct"
+						jk = "correct"
+					}
 					if jk != "correct" {
 						info.ByzFired("just:" + jk)
 						if err := va.SignJust(j, dPriv); err != nil {
@@ -719,6 +734,19 @@ func (Engine) RunOne(t *core.Tape, prop, tier string, info *core.RunInfo) *core.
 				dm.timedOut = true
 				info.Fault("timeout")
 				info.Logf("t=%d timeout dealer", net.Now)
+			case "justify-absent":
+				// the dealer reveals, unasked, the deal of a verifier it has not heard from (after a
+				// timeout this clears that verifier's implicit complaint in the Rabin variant)
+				i := ev.Payload.(int)
+				if dm.resp[uint32(i)] != stNone {
+					break
+				}
+				j := &Just{Sid: kit.CopyBytes(realSid), Index: uint32(i), Deal: dealer.Plain(i), kind: "correct"}
+				if err := va.SignJust(j, dPriv); err == nil {
+					info.ByzFired("just:unasked-for-silent-verifier")
+					info.Logf("t=%d dealer justifies silent verifier %d unasked", net.Now, i)
+					bcastJust(j)
+				}
 			}
 		} else if ev.Kind == "byz-act" {
 			b := ev.To
